@@ -605,10 +605,10 @@ class TOCSchemas:
         self, schema_ref: PluginRef, parents: Optional[List[PluginRef]]
     ):
         if parents is None:  # remove schema
-            for parent in self._parents[schema_ref]:
-                if parent in self._schemas:
-                    self._children[parent].remove(schema_ref)
-                elif all(
+            for parent in list(self._parents[schema_ref]):
+                # the schema is not a (used) child of any of its parents anymore
+                self._children[parent].discard(schema_ref)
+                if parent not in self._schemas and all(
                     (child not in self._schemas for child in self._children[parent])
                 ):
                     del self._parents[parent]
